@@ -825,6 +825,12 @@ func (rw *rewriter) rangeStmt(s *ast.RangeStmt, labelled bool) ast.Stmt {
 			b.Info()&(types.IsInteger|types.IsString|types.IsFloat) != 0 {
 			keyName = k.Obj().Name()
 		}
+		// an interface of the package itself: the run-time asks the harness
+		// for an order of such keys (zzsim.KeyOrder); without one the map's
+		// own order stays
+		if _, ok := k.Underlying().(*types.Interface); ok && k.Obj().Pkg() == rw.pkg {
+			keyName = k.Obj().Name()
+		}
 	}
 	if keyName == "" {
 		st.mapRangesSkipped++
